@@ -25,7 +25,7 @@ def promote(*dts):
 
 
 def scalar_dtypes(c, d):
-    """admissible result dtypes of (scalar c) * (operator of dtype d): NEP-50 and legacy value-based readings"""
+    """admissible result dtypes of (scalar c) * (operator of dtype d): Python scalars are weak (only real -> complex), NumPy scalars promote"""
     d = np.dtype(d)
     iscomplex = isinstance(c, (complex, np.complexfloating)) or (isinstance(c, np.ndarray) and np.iscomplexobj(c))
     weak = np.promote_types(d, np.complex64) if iscomplex else d
@@ -33,7 +33,8 @@ def scalar_dtypes(c, d):
         return {np.dtype(weak)}
     cd = np.asarray(c).dtype
     strong = np.promote_types(np.promote_types(d, cd), weak) if cd.kind in "iufc" else weak
-    return {np.dtype(weak), np.dtype(strong)}
+    # NumPy scalars and 0-d arrays carry a dtype and promote with it (NumPy 2 / NEP 50: np.float64(2) * float32 array is float64)
+    return {np.dtype(strong)}
 
 
 def is_leaf(t):
@@ -289,9 +290,9 @@ def is_complex_term(t):
                 return True
         if s[0] == "Lib" and P.is_cplx(s[3]):
             return True
-        if s[0] == "Scalar" and (P.is_cplx(s[3]) or s[1] in ("cj", "arrcj")):
+        if s[0] == "Scalar" and (P.is_cplx(s[3]) or np.iscomplexobj(P.SCALARS.get(s[1], 0))):
             return True
-        if s[0] in ("lmul", "rmul", "div") and (s[1] if s[0] == "lmul" else s[2]) in ("cj", "arrcj"):
+        if s[0] in ("lmul", "rmul", "div") and np.iscomplexobj(P.SCALARS.get(s[1] if s[0] == "lmul" else s[2], 0)):
             return True
         if s[0] == "Perm" and s[3] and P.is_cplx(s[3]):
             return True
